@@ -96,6 +96,22 @@ var c26Datasets = []string{"ds", "d two", "a/b", "ünï", "50%", "q?x=1#f", ".."
 const c26PlainDatasets = 6
 
 func c26DotDataset(ds string) bool { return ds == "." || ds == ".." }
+
+// c26Dataset maps a case's dataset number to a name; numbers from 100 up are
+// "filler" datasets (as many distinct destinations as a case needs).
+func c26Dataset(n int) string {
+	if n >= 100 {
+		return fmt.Sprintf("fill-%d", n)
+	}
+	if n < 0 {
+		n = -n
+	}
+	return c26Datasets[n%len(c26Datasets)]
+}
+
+// c26PoolSize is refinery's (unexported) limit of concurrently sent batches;
+// only used to aim the "saturated sender pool" shape and to excuse timing.
+const c26PoolSize = 500
 var c26Times = []time.Time{
 	time.Unix(1_700_000_000, 0).UTC(),
 	time.Unix(1_700_000_000, 123_456_789).UTC(),
@@ -152,6 +168,9 @@ func genC26(t *rapid.T) c26Case {
 	if rapid.IntRange(0, 7).Draw(t, "concurrent") == 3 {
 		c.Conc = genC26Conc(t)
 		return c
+	}
+	if rapid.IntRange(0, 49).Draw(t, "saturate") == 23 {
+		return genC26Saturated(t)
 	}
 	big := rapid.IntRange(0, 9).Draw(t, "big") == 0 // cases about the 1 MB / 5 MB limits
 	calm := rapid.IntRange(0, 3).Draw(t, "calm") == 0 // no scripted faults: every request is judged for timing
@@ -287,6 +306,40 @@ func genC26(t *rapid.T) c26Case {
 	}
 	c.Ops = rapid.SliceOfN(opGen, minOps, maxOps).Draw(t, "ops")
 	c.StopAfterLast = rapid.SampledFrom([]int64{0, 0, 1, q, 4 * q, 6 * q}).Draw(t, "stopafter")
+	return c
+}
+
+// genC26Saturated: aimed shape "saturated sender pool". As many single-event
+// destinations as refinery sends batches concurrently are flushed by age and
+// answered 429 + Retry-After, so every sender is parked in its Retry-After
+// sleep; then events for a few victim destinations are enqueued around further
+// age-based flushes, which now have to wait for a free sender. Everything is
+// virtual time; the usual accounting applies (timing is excused, see c26Judge).
+func genC26Saturated(t *rapid.T) c26Case {
+	c := c26Case{Servers: 1, BatchTimeout: int64(100 * time.Millisecond), SendTimeout: int64(10 * time.Second)}
+	c.MaxBatch = rapid.SampledFrom([]int{2, 5, 50}).Draw(t, "satmaxbatch")
+	c.Compress = rapid.Bool().Draw(t, "satcompress")
+	fill := rapid.SampledFrom([]int{c26PoolSize, c26PoolSize, c26PoolSize, c26PoolSize - 1, c26PoolSize + 3}).Draw(t, "fill")
+	ra := rapid.SampledFrom([]string{"59", "30", "5"}).Draw(t, "satra")
+	q := c.BatchTimeout / 4
+	for i := 0; i < fill; i++ {
+		c.Ops = append(c.Ops, c26Op{Op: "enq", DS: 100 + i, A1: &c26Resp{Kind: "status", Code: 429, RA: ra}})
+	}
+	c.Ops = append(c.Ops, c26Op{Op: "adv", D: 6 * q}) // all fillers are flushed by age and parked
+	victimGen := rapid.Custom(func(t *rapid.T) c26Op {
+		switch k := rapid.IntRange(0, 9).Draw(t, "vkind"); {
+		case k <= 5:
+			return c26Op{Op: "enq", DS: rapid.SampledFrom([]int{0, 0, 0, 1}).Draw(t, "vds"), Raw: rapid.Bool().Draw(t, "raw")}
+		case k <= 8:
+			return c26Op{Op: "adv", D: rapid.SampledFrom([]int64{5 * q, 6 * q, 6 * q, 9 * q}).Draw(t, "vadv")}
+		default:
+			return c26Op{Op: "adv", D: rapid.SampledFrom([]int64{1, q}).Draw(t, "vadvshort")}
+		}
+	})
+	// always start with: A, age flush (blocked on the pool), B
+	c.Ops = append(c.Ops, c26Op{Op: "enq"}, c26Op{Op: "adv", D: 6 * q}, c26Op{Op: "enq"})
+	c.Ops = append(c.Ops, rapid.SliceOfN(victimGen, 0, 8).Draw(t, "victimops")...)
+	c.StopAfterLast = rapid.SampledFrom([]int64{0, q, 6 * q}).Draw(t, "stopafter")
 	return c
 }
 
@@ -670,7 +723,7 @@ func c26Prepare(c c26Case) map[int]c26Prepared {
 			Context:     context.Background(),
 			APIHost:     c26HostURL(op.Srv, op.Form),
 			APIKey:      c26Keys[op.Key%len(c26Keys)],
-			Dataset:     c26Datasets[op.DS%len(c26Datasets)],
+			Dataset:     c26Dataset(op.DS),
 			Environment: "env",
 			SampleRate:  c26Rates[op.Rate%len(c26Rates)],
 			Timestamp:   c26Times[op.TS%len(c26Times)],
@@ -893,7 +946,7 @@ func c26Judge(c c26Case, prep map[int]c26Prepared, obs c26Obs, res *vkit.Result)
 		}
 		nEvents++
 		p := prep[i]
-		key, ds := c26Keys[op.Key%len(c26Keys)], c26Datasets[op.DS%len(c26Datasets)]
+		key, ds := c26Keys[op.Key%len(c26Keys)], c26Dataset(op.DS)
 		destinations[fmt.Sprintf("%d|%d|%s|%s", op.Srv, op.Form, key, ds)] = true
 		gs := eventGroups[i]
 		if len(gs) == 0 {
@@ -954,6 +1007,19 @@ func c26Judge(c c26Case, prep map[int]c26Prepared, obs c26Obs, res *vkit.Result)
 		}
 	}
 
+	// When about as many requests as refinery has senders (500) received a
+	// delaying answer, a flushed batch may have had to wait for a free sender:
+	// that is resource exhaustion, not the dispatch bound of the statement.
+	nPerturbing := 0
+	for _, r := range obs.reqs {
+		if c26Perturbing(r.Resp) {
+			nPerturbing++
+		}
+	}
+	poolBusy := nPerturbing >= c26PoolSize*4/5
+	if poolBusy {
+		res.Class("shape=sender-pool-saturated")
+	}
 	// attempts and timing per batch
 	for _, gk := range order {
 		g := groups[gk]
@@ -986,6 +1052,8 @@ func c26Judge(c c26Case, prep map[int]c26Prepared, obs c26Obs, res *vkit.Result)
 		}
 		late := first.At - minEnq
 		switch {
+		case poolBusy:
+			res.Class("timing-excused-sender-pool-possibly-saturated")
 		case perturbed[destOf(first)]:
 			res.Class("timing-excused-by-scripted-delay")
 		case late > limit:
